@@ -5,17 +5,17 @@ PID=$1; M=$2
 python3 - $PID $M <<'PY'
 import json,sys,os,shutil
 pid,m=sys.argv[1],sys.argv[2]
-v=json.load(open(f'/tmp/agent_{pid}/{m}.verify.json'))
+v=json.load(open(f'{os.environ.get("AROOT","/tmp/agent")}_{pid}/{m}.verify.json'))
 if not v["confirmed"]:
     print("not confirmed; not stored"); sys.exit(0)
 d=f'/verif/seeded/{pid}-{m}'; os.makedirs(d,exist_ok=True)
 for f in ("patch.diff","demo.py","NOTES.md"):
-    shutil.copy(f'/tmp/agent_{pid}/{m}/{f}', d)
+    shutil.copy(f'{os.environ.get("AROOT","/tmp/agent")}_{pid}/{m}/{f}', d)
 import subprocess
-base=subprocess.run(["git","-C",f"/tmp/wt/{pid}","log","--oneline","-1"],capture_output=True,text=True).stdout.strip()
+base=subprocess.run(["git","-C",f"{os.environ.get('WTROOT','/tmp/wt')}/{pid}","log","--oneline","-1"],capture_output=True,text=True).stdout.strip()
 meta={"property":pid,"id":f"{pid}-{m}","origin":"independent sub-agent given only the property text and a scratch worktree (nothing from /verif)",
  "base_commit":base,"needs_to_manifest":"see NOTES.md (trigger section)",
- "confirmed_by":f"tools/seed_verify.sh in scratch worktree /tmp/wt/{pid}: git apply patch.diff; demo.py exit code with / without the change; pinned pytest suite with the change compared with BASELINE.json stable_pass",
+ "confirmed_by":f"tools/seed_verify.sh in scratch worktree {os.environ.get('WTROOT','/tmp/wt')}/{pid}: git apply patch.diff; demo.py exit code with / without the change; pinned pytest suite with the change compared with BASELINE.json stable_pass",
  "verify_result":v}
 json.dump(meta,open(d+'/meta.json','w'),indent=1)
 PY
